@@ -20,3 +20,4 @@ import Ymq.Props.C09Ext
 #print axioms Ymq.C09.inv_mod_total
 #print axioms Ymq.C09.reduce64_row_product
 #print axioms Ymq.C09.no_panic_ext_threshold
+#print axioms Ymq.C09.egcd_i64_half
